@@ -219,6 +219,11 @@ def run_case(case) -> List[Tuple[str, str]]:
                 if any(v_ > 1 for v_ in per_seen.values()) and case["gsets"][0]:
                     fails.append(("OverlapNeverSameBatch", f"{where}: {n} tasks of the one agent {agents[0]!r} (graphs {case['gsets'][0]}): {max(per_seen.values())} of them were "
                                                            f"computed against the same pre-commit state in one batch"))
+                # ... and the turn that is computed for the agent is its FIRST queued task (the sequential loop runs the tasks in
+                # the order of the list; a later task of the agent depends on the earlier one's commit)
+                if b["results"] and b["results"][0] != f"utter-{agents[0]}-text0":
+                    fails.append(("ResultsEqual", f"{where}: {n} tasks of the one agent {agents[0]!r} queued as text0..text{n - 1}: the first turn the batch returns is "
+                                                  f"{b['results'][0]!r}, the sequential loop starts with 'utter-{agents[0]}-text0'"))
             return fails
         # ---- the model's prediction for the batch path ----
         if b["raised"]:
